@@ -20,6 +20,7 @@ import JPV.Props.C13
 import JPV.Proofs.CompleteStructural
 import JPV.Proofs.Cf.CompleteKw
 import JPV.Proofs.CompleteFull
+import JPV.Proofs.CompleteDisputed
 namespace JPV.Props
 open JPV
 
@@ -37,6 +38,25 @@ recogniser derives and the validity rules accept, compile() accepts, and it buil
 (Before the repair of D33 — keyword literals lexed as prefixes of function names such as `truex(` — this
 held only for registries without such names, `C03_kwfree`, and was refuted in general.) -/
 theorem C03 : C03_statement := fun env s c hj => Proofs.compile_complete env s c hj
+
+/-- ... and the strings the recogniser marks `disputed` (D28) compile too; so, with `C05_sound`, compile() accepts
+EXACTLY the strings that `Spec.judge` calls valid or disputed, for every environment: -/
+theorem C03_disputed (env : Impl.Env) (s : Str) (c : List Spec.CSegment)
+    (hj : Spec.judge (sigsOfEnv env) env.minIdx env.maxIdx s = (.disputed, some c)) :
+    Impl.compile env s = .ok (Spec.abstractSegs c) := Proofs.compile_complete_disputed env s c hj
+
+/-- the accepted language, exactly: compile() returns a query iff the independent recogniser + validity rules say
+valid or disputed, and then the query is the derivation's abstraction -/
+theorem C05_iff (env : Impl.Env) (s : Str) (q : Query) :
+    Impl.compile env s = .ok q ↔
+      ∃ c, (Spec.judge (sigsOfEnv env) env.minIdx env.maxIdx s = (.valid, some c) ∨
+            Spec.judge (sigsOfEnv env) env.minIdx env.maxIdx s = (.disputed, some c)) ∧
+        Spec.abstractSegs c = q := by
+  constructor
+  · exact C05_sound env s q
+  · rintro ⟨c, hj | hj, rfl⟩
+    · exact C03 env s c hj
+    · exact C03_disputed env s c hj
 
 theorem C03_kwfree (env : Impl.Env) (hkw : Proofs.Cf.KwFree env) (s : Str) (c : List Spec.CSegment)
     (hj : Spec.judge (sigsOfEnv env) env.minIdx env.maxIdx s = (.valid, some c)) :
